@@ -210,6 +210,18 @@ mut("C07", "no-poll-after-line", "R07-5", "background jobs are not polled after 
             }
             Ok(ReadResult::Eof) => {'''))
 
+mut("C02", "child-returns-on-missing-input", "R02-6|core::run_single_program|child-return",
+    "a child whose < file cannot be opened returns into the shell's code instead of exiting",
+    (C, """                    if fd == -1 {
+                        process::exit(1);
+                    }
+
+                    libs::dup2(fd, 0);""", """                    if fd == -1 {
+                        return 1;
+                    }
+
+                    libs::dup2(fd, 0);"""))
+
 # ------------------------------------------------------------------ C08
 mut("C08", "child-keeps-read-end", "K3c", "child keeps the read end of its own output pipe",
     (C, '''                libs::dup2(fds.1, 1);
